@@ -274,6 +274,41 @@ func runC13(cfg Config) {
 		}
 		check(recs, "wide-large")
 	}
+	// an output that fails part-way: Tar must not report success for an archive that was cut off —
+	// whenever it returns nil, what reached the writer is the complete, well-formed archive
+	for it := 0; it < cfg.N(150, 3000); it++ {
+		recs := genRecords(rng, rng.Intn(8), 30)
+		full := tarRecs(recs)
+		if full == "err" || full == "panic" {
+			continue
+		}
+		total := len(unhx(full))
+		room := rng.Intn(total + 1)
+		switch rng.Intn(4) {
+		case 0:
+			room = total - 1 - rng.Intn(40) // in the tail: goodbye tables
+		case 1:
+			room = total - 1
+		}
+		if room < 0 {
+			room = 0
+		}
+		lw := &limitWriter{room: room}
+		res := guard(func() string {
+			if err := desync.Tar(context.Background(), lw, &recReader{recs: recs}); err != nil {
+				return "err"
+			}
+			return "ok"
+		})
+		line := fmt.Sprintf("tar.fault room=%d total=%d %s", room, total, recsCase(recs))
+		rep.Count(line, true, "tar-fault:"+res)
+		if res == "ok" && room < total {
+			monitor(fmt.Sprintf("Tar reported success although its output failed after %d of %d bytes: the archive written is cut off", room, total), line, res)
+		}
+		if res == "panic" {
+			monitor("Tar panicked on a failing output", line, res)
+		}
+	}
 	// casync-made fixtures must satisfy the same grammar
 	files, _ := filepath.Glob(filepath.Join(cfg.Repo, "testdata", "*.catar"))
 	for _, f := range files {
@@ -634,4 +669,22 @@ func compareFS(model, verdict string, disk []string, top string) string {
 		}
 	}
 	return ""
+}
+
+// limitWriter accepts room bytes and fails from then on (a full disk, a closed pipe)
+type limitWriter struct {
+	room int
+	buf  bytes.Buffer
+}
+
+func (w *limitWriter) Write(p []byte) (int, error) {
+	if len(p) <= w.room {
+		w.room -= len(p)
+		w.buf.Write(p)
+		return len(p), nil
+	}
+	n := w.room
+	w.buf.Write(p[:n])
+	w.room = 0
+	return n, fmt.Errorf("no space left on device")
 }
